@@ -6,7 +6,7 @@
 From VV Require Import Model.Base Model.Pattern Model.Gpo Spec.LiftSpec
   Proofs.LiftSpecProofs Proofs.ApplyProofs Proofs.GpoRefine Proofs.GpoTop Proofs.GpoNearest
   Generated.KernelsLift Proofs.KernelLiftEquiv Proofs.GpoAltOverlap
-  Model.PyStr Model.PyLoop Generated.KernelsGpo Proofs.KernelGpoEquiv.
+  Model.PyStr Model.PyLoop Generated.KernelsGpo Proofs.KernelGpoEquiv Proofs.SourceLiftover.
 
 (* the altered sequence is the reference with every variant spliced in *)
 Theorem C05_apply_variants_is_splice : forall start ref vs,
@@ -206,6 +206,17 @@ Proof.
                     (fun p n => k_gpo_ref_to_alt_position_eq g p n (from_var_stats_del_length vs r g Hv H)))).
 Qed.
 
+(* the property itself about the translated source: for every sorted, non-overlapping set of variants inside a context, the constructor of the
+   source accepts it and the record it builds lifts every reference position of the context to the specification's image (None on deleted
+   bases), positions before the context to themselves, and every alternate position back to the specification's pre-image (None on inserted
+   bases) - so the round trips and the order preservation proved for r2a / a2r above are facts about genomic_position_offsets.py as it stands *)
+Theorem C05_source_liftover_is_specification : forall r vs, 0 < rs r -> rs r <= re r -> wf (rs r) (re r) vs ->
+  exists kg, k_gpo_from_var_stats vs r = Ok kg
+  /\ (forall p, rs r <= p <= re r -> k_gpo_ref_to_alt_position kg p None = Ok (r2a vs p))
+  /\ (forall p, p < rs r -> forall nearest, k_gpo_ref_to_alt_position kg p nearest = Ok (Some p))
+  /\ (forall q, rs r <= q < rs r + kg_alt_length kg -> k_gpo_alt_to_ref_position kg q = Ok (a2r vs q)).
+Proof. exact source_liftover_is_specification. Qed.
+
 (* the backward search of array_utils (a while loop that returns from inside), translated on every run, is the definition the SEARCH_F table
    of the translated ref_to_alt_position is read with - for every array, start and value, the IndexError of a start beyond the array included *)
 Theorem C05_prev_index_matches_source : forall a i v, k_get_prev_index a i v = u8_prev_index a i v.
@@ -276,5 +287,6 @@ Print Assumptions C05_clamp_matches_source.
 Print Assumptions C05_from_var_stats_matches_source.
 Print Assumptions C05_source_record_is_model_record.
 Print Assumptions C05_prev_index_matches_source.
+Print Assumptions C05_source_liftover_is_specification.
 Print Assumptions C05_alt_var_overlap_characterised.
 Print Assumptions C05_alt_single_base_insertion_point_refuted.
